@@ -231,6 +231,15 @@ def lemma_pairs_postfix_cast(i: int, j: int, post: int, cast: int) -> bool:
     return _pair(i, j, 2, 3, 0, post, cast)
 
 
+def lemma_unary_before_cast(u: int, post: int, j: int) -> bool:
+    """
+    pre: 1 <= u <= 3 and 0 <= post <= 3 and 0 <= j < NB
+    post: __return__
+    """
+    toks = operand('a', u, post, 1) + [BINOPS[j]] + operand('b', u, 0, 1)
+    return real_parse(toks) == ref_parse(toks)
+
+
 def twin_pairs(i: int, j: int) -> bool:
     """
     pre: 0 <= i < NB and 0 <= j < NB
@@ -339,7 +348,7 @@ def twin_round_trip(i: int, j: int) -> bool:
 
 
 THOROUGH_ONLY = ['lemma_pairs_postfix_cast', 'lemma_triples_level_reps', 'lemma_round_trip_level_reps']
-SPLITS = {'lemma_pairs_unary': ('i', 14), 'lemma_round_trip_two': ('i', 14), 'lemma_pairs_postfix_cast': ('i', 14), 'lemma_triples_level_reps': ('i', 6), 'lemma_round_trip_level_reps': ('i', 6)}
+SPLITS = {'lemma_unary_before_cast': ('u', 1, 4), 'lemma_pairs_unary': ('i', 14), 'lemma_round_trip_two': ('i', 14), 'lemma_pairs_postfix_cast': ('i', 14), 'lemma_triples_level_reps': ('i', 6), 'lemma_round_trip_level_reps': ('i', 6)}
 
 # warm caches
 _ = CTX.flavors
